@@ -417,7 +417,7 @@ func TestPropLRUModel(t *testing.T) { hx.Check(t, 5000, genLCase, runLCase) }
 
 // sharded LRU under the race detector: values stay attached to their keys.
 func TestShardedLRURace(t *testing.T) {
-	man := hx.NewManual(t, false, "8 goroutines x 20000 ops on concurrent_lru.ShardedLRU under -race")
+	man := hx.NewManual(t, false, "8 goroutines x 20000 ops (Add/Get/Del/Len, now and then Flush and Clean) on concurrent_lru.ShardedLRU under -race")
 	man.Case("sharded-lru-race", func(ctx *hx.Ctx) *hx.Failure {
 		l := concurrent_lru.NewShardedLRU[K, int](4, 8, nil)
 		var wg sync.WaitGroup
@@ -430,6 +430,16 @@ func TestShardedLRURace(t *testing.T) {
 					k := K{ID: (i*7 + g) % 64, H: uint64(i % 5)}
 					switch i % 7 {
 					case 0, 1, 2:
+						if i%701 == 0 {
+							l.Flush()
+						} else if i%211 == 0 {
+							l.Clean(func(key K, v int) bool {
+								if v/1000 != key.ID {
+									bad.Add(1)
+								}
+								return key.ID%3 == 0
+							})
+						}
 						l.Add(k, k.ID*1000+g)
 					case 3, 4:
 						if v, ok := l.Get(k); ok && v/1000 != k.ID {
@@ -458,7 +468,7 @@ func TestShardedLRURace(t *testing.T) {
 		}
 		ctx.Nontrivial("sharded-lru-race-a")
 		ctx.Nontrivial("sharded-lru-race-b")
-		ctx.Sample("8 goroutines x 20000 Add/Get/Del/Len on 64 keys, 4 shards x 8")
+		ctx.Sample("8 goroutines x 20000 Add/Get/Del/Len/Flush/Clean on 64 keys, 4 shards x 8")
 		return nil
 	})
 }
